@@ -532,8 +532,13 @@ func (c *copier) copy(ctx context.Context, src, srcComponents, target string, ov
 func (c *copier) notifyChange(target string, fi os.FileInfo) error {
 	if c.changefn != nil {
 		// the path below the destination root, whatever way the caller
-		// spelled that root ("dst/", "dst/.")
-		if err := c.changefn(fsutil.ChangeKindAdd, path.Clean("/"+filepath.ToSlash(strings.TrimPrefix(target, filepath.Clean(c.root)))), fi, nil); err != nil {
+		// spelled that root ("dst/", "dst/."); targets below a root that
+		// is the working directory carry no prefix
+		rel := target
+		if root := filepath.Clean(c.root); root != "." {
+			rel = strings.TrimPrefix(target, root)
+		}
+		if err := c.changefn(fsutil.ChangeKindAdd, path.Clean("/"+filepath.ToSlash(rel)), fi, nil); err != nil {
 			return errors.Wrap(err, "failed to notify file change")
 		}
 	}
